@@ -433,12 +433,43 @@ def rule_r3(facts, col, rule_id="C17.R3", scope=None):
 rule_r2 = effects.view_fallback(rule_r2)
 rule_r3 = effects.view_fallback(rule_r3)
 
+LENGTH_CHANGERS = {"set_len", "set_times", "set_permissions", "seek", "rewind", "set_modified"}
+
+
+def rule_r4(facts, col, rule_id="C17.R4"):
+    """what is already in the file is touched only by the open flags: no function of src/file_sink.rs (constructors, work(),
+    their helpers and closures) calls File::set_len / Seek::seek / rewind on the sink's file.  `overwrite` truncates through the
+    open flag that R1 checks; `append` and `create` must not shorten, rewrite or reposition anything - a set_len() 'tidying' a
+    trailing partial sample, or a seek before the first write, changes bytes that were on disk before the sink existed."""
+    n = 0
+    for b in facts.bodies:
+        if b.file != "src/file_sink.rs":
+            continue
+        n += 1
+        hits = []
+        for bb, t in b.calls():
+            nm = t["f"].get("name") or ""
+            q = t["f"].get("q") or ""
+            if nm in LENGTH_CHANGERS and (q.startswith("std::fs::File::") or q.startswith("std::io::Seek::") or "BufWriter" in q):
+                hits.append((bb, q))
+        if hits:
+            col.bad(rule_id, "%s:%s" % (b.q, hits[0][1].split("::")[-1]), b.where(hits[0][0]),
+                    "%s is called on the sink's file: the open mode's flags are the only thing that may decide what happens to bytes "
+                    "that were in the file before (append keeps ALL of them, create refuses an existing file, overwrite truncates "
+                    "through its flag)" % hits[0][1], {})
+        else:
+            col.ok(rule_id, b.q, b.where(), "no set_len / seek on the file")
+    return n
+
+
 def run(ctx):
     facts = ctx.facts("default")
     ctx.anchor("C17", MODE_ADT in facts.adts, "enum file_sink::Mode")
     rule_r1(facts, ctx)
     rule_r2(facts, ctx)
     rule_r3(facts, ctx)
+    rule_r4(facts, ctx)
+    ctx.floor("C17.R4", 4, "functions of src/file_sink.rs (constructors, work(), closures)")
     ctx.floor("C17.R3", 1, "FileSink::work's consume")
     ctx.floor("C17.R1", 6, "3 modes x {FileSink::new, NoCopyFileSink::new}")
     ctx.floor("C17.R2", 2, "FileSink::work, NoCopyFileSink::work")
